@@ -10,8 +10,12 @@
      {op: "sd", recs, oc, lines, back}
          SDFile of the records (header, ctab lines, metadata) -> serialize -> lines
          -> SDFile.deserialize -> back = [{header, ctab, meta: {ok, items}, mol}]
+     {op: "hist", recs, loaded, calls, obs}
+         an SDFile of the records (read back from its own text first if loaded), then the calls of SdHist
+         one by one (calls[k] = {c: name, ...arguments}); obs[k] = {oc, keys, back} after call k:
+         keys = list(file.keys()), back = the records of SDFile.deserialize(file.serialize()) as for "sd"
    Texts are lists of characters.  A disagreement prints <<"MISMATCH", tid, l, flags, kb, ...>>. *)
-EXTENDS RdkitBridge, SdMeta, Json, IOUtils, TLC
+EXTENDS RdkitBridge, SdHist, Json, IOUtils, TLC
 
 Tr == JsonDeserialize(IOEnv.TRACE_FILE)
 VARIABLES tid, l
@@ -69,6 +73,31 @@ JudgeSd(ev) ==
   IN /\ (flags = <<TRUE, TRUE, TRUE, TRUE, TRUE>> \/ PrintT(<<"MISMATCH", tid, l + 1, flags, {}, w.oc>>))
      /\ (okLines \/ PrintT(<<"DIAG", tid, l + 1, "sd-lines-differ">>)))
 
+(* a recorded history: every call is applied to the specified mapping, every observation compared *)
+JudgeHist(ev) ==
+  Bind(FoldLeft(LAMBDA acc, r : PutKey(acc, r.header.mol_name, [header |-> r.header, ctab |-> r.ctab, meta |-> r.meta]),
+                <<>>, ev.recs), LAMBDA init :
+  Bind(FoldLeft(LAMBDA acc, c : LET cur == IF Len(acc) = 0 THEN init ELSE acc[Len(acc)].file IN
+                                Append(acc, IF Dom_Call(cur, c) THEN ApplyCall(cur, c) ELSE [oc |-> "outside", file |-> cur]),
+                <<>>, ev.calls), LAMBDA res :
+  LET FlagsAt(k) ==
+        LET x == res[k].file
+            g == ev.obs[k]
+            dom == Dom_Hist(x) /\ res[k].oc # "outside"
+            okOc == dom => g.oc = res[k].oc
+            okKeys == dom => g.keys = KeysOf(x)
+            okNames == dom => (Len(g.back) = Len(x) /\ \A n \in DOMAIN x : g.back[n].header.mol_name = x[n].key)
+            okHeader == (dom /\ okNames) => \A n \in DOMAIN x : g.back[n].header = x[n].rec.header
+            okMeta == (dom /\ okNames) => \A n \in DOMAIN x : g.back[n].meta.ok /\ g.back[n].meta.items = x[n].rec.meta
+            okCtab == (dom /\ okNames) => \A n \in DOMAIN x : g.back[n].ctab = x[n].rec.ctab /\ MolEq(g.back[n].mol, ReadCtab(x[n].rec.ctab))
+        IN <<okOc, okKeys, okNames, okHeader, okMeta, okCtab>>
+      bad == {k \in 1..Len(ev.calls) : FlagsAt(k) # <<TRUE, TRUE, TRUE, TRUE, TRUE, TRUE>>}
+      outside == {k \in 1..Len(ev.calls) : res[k].oc = "outside"}
+  IN /\ Len(ev.obs) = Len(ev.calls)
+     /\ (bad = {} \/ LET k == CHOOSE k \in bad : \A q \in bad : k <= q IN
+                     PrintT(<<"MISMATCH", tid, l + 1, FlagsAt(k), {}, res[k].oc, k>>))
+     /\ (outside = {} \/ PrintT(<<"DIAG", tid, l + 1, "hist-call-outside-domain">>))))
+
 Init == tid \in 1..Len(Tr) /\ l = 0
 Next == /\ l < Len(Tr[tid])
         /\ l' = l + 1
@@ -77,5 +106,6 @@ Next == /\ l < Len(Tr[tid])
            CASE ev.op = "ctab" -> JudgeCtab(ev)
              [] ev.op = "rd" -> JudgeRd(ev)
              [] ev.op = "sd" -> JudgeSd(ev)
+             [] ev.op = "hist" -> JudgeHist(ev)
 Spec == Init /\ [][Next]_tvars
 =============================================================================
